@@ -33,6 +33,11 @@ def plan(ctx):
     for op in ('+', '-', '*', '/', '**', 'neg', '+=', '-=', '*=', '/='):
         obs.append(Obligation(f"digits.operator.{op}", "xh", "c04", "operator_digits", param={"op": op}, timeout=T * 2, bounds=DP,
                               desc=f"real operator {op} on real Decimals: digit bound; context untouched"))
+    from sqv.harness import c04 as h
+    for i, text in enumerate(h.TEXTS):
+        obs.append(Obligation(f"text.t{i}", "xh", "c04", "text_digits", param={"t": i}, timeout=T * 2,
+                              bounds="host ints a, b from a pool of 8 (up to 30 digits, incl. a bool; indices symbolic); with / without a parse cache (evaluated twice)",
+                              desc=f"eval({text!r}): a Decimal of at most max(28, widest operand + 1) significant digits; context untouched (covers what the parser does to the text)"))
     return {
         "obligations": obs,
         "uncovered": ["builtin round on symbolic ints: CrossHair's model of round(x, None) produced a counterexample that does not "
